@@ -21,6 +21,19 @@ def ordered_sites(body, terms):
     return all(body.cfg.dominates(sites[i], sites[i + 1]) for i in range(len(sites) - 1))
 
 
+def background_flag_test(ctx, rule):
+    """LayerData::is_background tests exactly flag bit 0x0008 of the layer's flags (also run by C17: a wider mask - seed C17-n - makes the
+    transparent index of an ordinary layer opaque, so a transparent source pixel overwrites the backdrop)"""
+    fx = ctx.fx
+    ib = ctx.anchor('asefile::layer::LayerData::is_background')
+    if ib is not None:
+        t = expand(res(ib).ret(), fx, 3)
+        cs_ = [q.const_val(x) for x in walk(t) if x[0] == 'const']
+        ok = 8 in cs_ and not any(c in cs_ for c in (1, 2, 4, 16, 32, 64)) and any(is_param_path(field_path(x)[0], 1, []) and field_path(x)[1][:1] == ['flags']
+                                                                                  for x in walk(t) if x[0] == 'field')
+        ctx.inst(rule, 'is_background', ok, 'is_background = %s; must test flag bit 0x0008 of self.flags' % show(t), ib.span, key=ib.name + '|%s' % rule)
+
+
 def run(ctx):
     fx = ctx.fx
     spec = SP.load_spec()
@@ -280,13 +293,7 @@ def run(ctx):
                     is_param_path(strip_casts(ly[2][1]), 2, ['layer'])
             ctx.inst('B', 'layer_is_background', ok, 'background flag = %s; must be layers[cel_id.layer].is_background()' % show(bgt)[:120], c.span,
                      key=rv.name + '|B|flag')
-    ib = ctx.anchor('asefile::layer::LayerData::is_background')
-    if ib is not None:
-        t = expand(res(ib).ret(), fx, 3)
-        cs_ = [q.const_val(x) for x in walk(t) if x[0] == 'const']
-        ok = 8 in cs_ and not any(c in cs_ for c in (1, 2, 4, 16, 32, 64)) and any(is_param_path(field_path(x)[0], 1, []) and field_path(x)[1][:1] == ['flags']
-                                                                                  for x in walk(t) if x[0] == 'field')
-        ctx.inst('B', 'is_background', ok, 'is_background = %s; must test flag bit 0x0008 of self.flags' % show(t), ib.span, key=ib.name + '|B')
+    background_flag_test(ctx, 'B')
     for fn, idx in (('asefile::cel::ImageContent::validate', 4), ):
         ib2 = ctx.anchor(fn)
         if ib2 is not None:
@@ -376,8 +383,13 @@ def run(ctx):
                     if True:
                         ncl += 1
                         caps = [t_ for _n, t_ in x[2]]
-                        from_input = bool(caps) and all(any(is_param_path(y, 1, ['data']) for y in walk(t_)) for t_ in caps)
-                        from_output = any(isinstance(y, tuple) and y and y[0] == 'agg' and (y[1] or '').endswith('cel::CelsData') for t_ in caps for y in walk(t_))
+                        def scans_input(t_):
+                            return any(isinstance(y, tuple) and y and y[0] == 'call' and y[1].split('::')[-1] in ('iter', 'into_iter') and
+                                       any(is_param_path(z, 1, ['data']) for z in walk(y)) for y in walk(t_))
+                        from_input = bool(caps) and all(scans_input(t_) for t_ in caps)
+                        grown = {strip_casts(q.arg_terms(p_)[0]) for p_ in q.calls(cvb, 'std::vec::Vec::push')}
+                        from_output = any(isinstance(y, tuple) and y and y[0] == 'agg' and (y[1] or '').endswith('cel::CelsData') for t_ in caps for y in walk(t_)) or \
+                            any(strip_casts(t_) in grown for t_ in caps)
                         ctx.inst('N', 'validate_ref#table', from_input and not from_output, 'the link-target test captures %s; must be a table built from '
                                  'self.data before the loop (not the output under construction)' % [show(t_)[:60] for t_ in caps], c.span,
                                  key=cvb.name + '|N|link-table')
